@@ -70,6 +70,34 @@ def gen_element_orders(tier, rng):
         if rng.random() < 0.4: c += " ; sched %d" % rng.randint(1, 10 ** 6)
         cases.append(c)
     return cases
+def gen_count_orders(tier, rng):
+    """count(vars, target, cnt) whose TARGET is a variable, with target / cnt declared before or after the counted variables (so
+    that the search fixes the target first or last) and the count posted before or after a constraint that narrows one of them:
+    the solution set must not depend on the declaration order -- it does if the propagator is not woken when the target is fixed
+    (seeded change C14e: the target was dropped from Count's trigger variables)"""
+    cases = []
+    for _ in range(1500 if tier == "quick" else 40000):
+        n = rng.choice([2, 3, 3, 4])
+        pool = rng.sample([-1, 0, 1, 2, 3], rng.choice([2, 3]))
+        xs = []
+        for _ in range(n):
+            vs = sorted(set(rng.sample(pool, rng.randint(1, len(pool)))))
+            xs.append(",".join(map(str, vs)) if len(vs) > 1 else "%d..%d" % (vs[0], vs[0]))
+        tv = sorted(set(rng.sample(pool + [7], rng.randint(2, 3))))
+        tgt = ",".join(map(str, tv)); cnt = "%d..%d" % (rng.choice([0, 0, 1]), rng.choice([n, n, n - 1]))
+        layout = rng.choice(["xtc", "txc", "ctx", "xct", "tcx"])
+        doms, pos = [], {}
+        for ch in layout:
+            if ch == "x": pos["x"] = list(range(len(doms), len(doms) + n)); doms += xs
+            elif ch == "t": pos["t"] = len(doms); doms.append(tgt)
+            else: pos["c"] = len(doms); doms.append(cnt)
+        props = ["count %s x%d x%d" % (",".join("x%d" % i for i in pos["x"]), pos["t"], pos["c"])]
+        if rng.random() < 0.5: props.append(rng.choice(["neq x%d c:%d" % (pos["t"], rng.choice(tv)), "geq x%d c:1" % pos["c"], "neq x%d x%d" % (pos["x"][0], pos["t"]), "leq x%d c:%d" % (pos["c"], n - 1)]))
+        rng.shuffle(props)
+        c = " ; ".join(["|".join(doms)] + props + [rng.choice(["enum", "enum", "enum", "first", "max x%d" % pos["c"]])])
+        if rng.random() < 0.4: c += " ; sched %d" % rng.randint(1, 10 ** 6)
+        cases.append(c)
+    return cases
 def gen_wide_declarations(tier, rng):
     """the same small model with 60..140 inert one-value variables declared BETWEEN its variables (or before / after them):
     variable indices far apart, dependency rows far apart (seeded change C14d: a 64-bit "already registered" mask keyed by
@@ -95,5 +123,6 @@ FAMILIES = [
     Family("schedules", "solve", gen_sched, nontrivial=ec.nontrivial_solve, prop_judge=plevel.judge_solve),
     Family("permutations_implied", "solve", gen_perm, nontrivial=ec.nontrivial_solve, prop_judge=plevel.judge_solve),
     Family("element_orders", "solve", gen_element_orders, nontrivial=ec.nontrivial_solve, prop_judge=plevel.judge_solve),
+    Family("count_orders", "solve", gen_count_orders, nontrivial=ec.nontrivial_solve, prop_judge=plevel.judge_solve),
     Family("wide_declarations", "solve", gen_wide_declarations, nontrivial=ec.nontrivial_solve, prop_judge=plevel.judge_solve),
 ]
